@@ -32,7 +32,7 @@ from vlib import f2b, fs2b, b2fs
 from props import c01
 
 ID = "C02"
-GEN = ["Leaves", "Combinators", "Planar", "Bnaf", "JaxTransforms", "BnafGen", "TriangularGen", "NetGen"]
+GEN = ["Leaves", "Combinators", "Planar", "Bnaf", "JaxTransforms", "BnafGen", "TriangularGen", "NetGen", "BnafInitGen"]
 RULE = ("log-det outputs (methods transform_and_log_det / inverse_and_log_det) of expression trees over generated leaves "
         "(Affine/Loc/Scale with both signs, Exp, SoftPlus, Tanh, LeakyTanh, RationalQuadraticSpline with perturbed raw parameters) "
         "under generated Chain/Invert, depth<=3, on boundary-directed inputs (interval ends, knots, ±max_val, tanh(max_val), ±1, 0, "
